@@ -252,8 +252,10 @@ def is_int(c):
     return type(c) is int or (isinstance(c, (np.integer,)) and not isinstance(c, np.bool_))
 
 
-def wellformed(obj):
-    """None if obj satisfies C02 clauses 1-4, else (clause, detail)."""
+def wellformed(obj, fresh=False):
+    """None if obj satisfies C02 clauses 1-4, else (clause, detail).  `fresh`: the object was
+    just returned by a constructor (limits of affinely scaled objects are judged only then: a raw
+    store silently clears the library's `scaled` marker, which belongs to C17, not to C02)."""
     s, nw, nf = obj.signed, obj.n_word, obj.n_frac
     if not (isinstance(s, (bool, np.bool_)) or s in (0, 1)) or not is_int(nw) or not is_int(nf) or nw < 0:
         return 'format', {'signed': repr(s), 'n_word': repr(nw), 'n_frac': repr(nf)}
@@ -282,7 +284,7 @@ def wellformed(obj):
     scale = Fraction(obj.scale) if obj.scale is not None else Fraction(1)
     bias = Fraction(obj.bias) if obj.bias is not None else Fraction(0)
     scaled = scale != 1 or bias != 0
-    if hi.bit_length() <= 53 and abs(nf) < 1000:
+    if hi.bit_length() <= 53 and abs(nf) < 1000 and (fresh or not scaled):
         for name, code, use_bias in (('upper', hi, True), ('lower', lo, True), ('precision', 1, False)):
             got = getattr(obj, name)
             want = Q.unscale(code, nf)
@@ -328,7 +330,7 @@ class C02(Oracle):
                 if isinstance(t, Fxp):
                     objs.append((('transient',), t))
         for who, o in objs:
-            r = wellformed(o)
+            r = wellformed(o, fresh=(st.op['op'] == 'new' and o is st.ret and st.outcome == 'ok'))
             if r is not None:
                 origin = w.slots[who[1]].origin if who[0] == 'slot' else who[0]
                 det = dict(r[1])
@@ -363,6 +365,10 @@ class C02(Oracle):
             ovf_mode, rounding = kw.get('overflow', 'saturate'), kw.get('rounding', 'trunc')
             scaled = kw.get('scale', 1) != 1 or kw.get('bias', 0) != 0
             tgt = st.ret if isinstance(st.ret, Fxp) else None
+            if st.extra.get('cfg') is not None:
+                if tgt is None:
+                    return
+                ovf_mode, rounding = tgt.config.overflow, tgt.config.rounding
         if ovf_mode != 'saturate' or nf < 0 or scaled or s is None or nw > 52 or nf > nw + 8:
             return
         sh, flat = V.exact(val, (s, nw, nf))
